@@ -24,6 +24,12 @@ def main():
                       no_input=True)
         sys.exit(res.finish())
     mod.check(res)
+    if tier == "thorough" and not os.environ.get("VERIF_NO_COQCHK"):
+        ok, axioms, tail = vlib.coqchk(a.prop)
+        res.oblige("coqchk -silent -o re-checks Props.%s and every library it depends on" % a.prop, ok, axioms[:1500] if ok else tail)
+        if ok: res.trusted.append("coqchk context summary: " + " ".join(axioms.split())[:1200])
+        elif not res.violations:
+            res.violation("proof-broken", "coqchk rejects the compiled development", dict(theorem_or_correspondence="coqchk GP.Props." + a.prop, log=tail), no_input=True)
     sys.exit(res.finish())
 
 if __name__ == "__main__":
